@@ -68,8 +68,8 @@ NOTHING_LEFT_KEY = "cleanup|connected=True,nothing-left|raises-ValueError"
 
 def plan(tier):
     if tier == "quick":
-        return {"corner": 150, "hyper": 600, "simplicial": 300, "directed": 300, "sequence": 320, "frozen": 120}
-    return {"corner": 3000, "hyper": 120000, "simplicial": 45000, "directed": 45000, "sequence": 48000, "frozen": 16000}
+        return {"corner": 150, "hyper": 600, "simplicial": 300, "directed": 300, "sequence": 320, "frozen": 120, "wide": 60}
+    return {"corner": 3000, "hyper": 120000, "simplicial": 45000, "directed": 45000, "sequence": 48000, "frozen": 16000, "wide": 6000}
 
 
 def floors(tier):
@@ -82,7 +82,7 @@ def floors(tier):
         "relabel:Hypergraph": 2500, "relabel:SimplicialComplex": 1200, "relabel:DiHypergraph": 1200,
         "subhypergraph": 4500, "subhypergraph:cut-through-edge": 800, "subhypergraph:keep_isolates=False": 1500,
         "dual": 900, "dual:involution": 250, "lshift": 900, "lshift:shared-node-with-attrs": 100, "lshift:same-object": 50,
-        "complement": 900, "complement:iterable-node-labels": 150,
+        "complement": 900, "complement:iterable-node-labels": 150, "input-wide:more-than-ten-nodes": 50,
         "cut_to_order:returned": 5000, "cut_to_order:rejected-XGIError": 1200, "k_skeleton": 1000, "from_max_simplices": 250,
         "lch:in_place=False": 1200, "lch:in_place=True": 700, "lch:tie": 500,
         "input-nkind:tuple": 150, "input-nkind:fset": 80, "input-nkind:npint": 80, "input-ekind:float": 100, "input-ekind:tuple": 40,
@@ -252,6 +252,41 @@ def gen_hyper(rng, nkind=None, pool=None):
     edges = [(m, i, _attrs(rng)) for m, i in zip(members, ids)]
     rec = Recipe("Hypergraph", nodes, edges, _net_attrs(rng), tags=(nkind, ekind))
     rec.nkind, rec.pool = nkind, list(pool)
+    return rec
+
+
+def gen_wide(rng):
+    """More than ten nodes (two-digit positions / indices appear), edges of at most three members so that complement() stays small."""
+    kind = rng.choice(("int", "gap", "str", "npint"))
+    k = rng.randint(11, 14)
+    if kind == "int":
+        pool = list(range(k))
+    elif kind == "gap":
+        pool = rng.sample(range(-5, 40), k)
+    elif kind == "npint":
+        pool = [np.int64(i) for i in rng.sample(range(0, 30), k)]
+    else:
+        pool = rng.sample(["a", "b", "c", "d", "e", "n1", "n10", "n2", "x", "yy", "n11", "B", "_z", "n3", "zz"], k)
+    if rng.random() < 0.5:
+        rng.shuffle(pool)
+    # edges that join an early node (position < 10) with late ones (position >= 10) in both member orders
+    late, early = pool[10:], pool[:10]
+    members = []
+    for _ in range(rng.randint(2, 4)):
+        m = [rng.choice(early), rng.choice(late)] + ([rng.choice(pool)] if rng.random() < 0.4 else [])
+        rng.shuffle(m)
+        members.append(list(dict.fromkeys(m)))
+    members += [ops.rand_members(rng, pool, 1, 3) for _ in range(rng.randint(1, 5))]
+    rng.shuffle(members)
+    used = {n for m in members for n in m}
+    pre = list(pool) if rng.random() < 0.7 else [n for n in pool if n not in used or rng.random() < 0.5]
+    if rng.random() < 0.3:
+        rng.shuffle(pre)
+    nodes = [(n, _attrs(rng)) for n in pre]
+    ekind, ids = _edge_ids(rng, len(members))
+    edges = [(m, i, _attrs(rng)) for m, i in zip(members, ids)]
+    rec = Recipe("Hypergraph", nodes, edges, _net_attrs(rng), tags=(kind, ekind))
+    rec.nkind, rec.pool = kind, list(pool)
     return rec
 
 
@@ -1153,6 +1188,8 @@ def run_case(mon, kind, idx, rng):
         rec = gen_corner(rng, idx % N_CORNERS)
     elif base == "hyper":
         rec = gen_hyper(rng)
+    elif base == "wide":
+        rec = gen_wide(rng)
     elif base == "simplicial":
         rec = gen_simplicial(rng)
     else:
@@ -1162,6 +1199,8 @@ def run_case(mon, kind, idx, rng):
         mon.note("discarded:invalid-start-state")
         return
     mon.note(f"input:{rec.cls}")
+    if base == "wide":
+        mon.note("input-wide:more-than-ten-nodes")
     mon.note(f"input-nkind:{rec.nkind}")
     if base == "corner":
         mon.note(f"input-corner:{rec.tags[0]}")
